@@ -23,6 +23,10 @@ TRACE = 'CrashTrace'
 PROMPT_MS = 2000
 
 
+VICTIM_WALL = 30.0        # a victim's whole scenario takes milliseconds
+CONTENDER_WALL = 8.0      # contenders notice the stop signal within one round (time-outs of at most 1 s)
+
+
 def _import():
     pool.import_aiuti()
     import aiuti.filelock as F
@@ -96,17 +100,58 @@ def run_victim(F, path, kind, reentrant, kill_at, inherited_lock=None):
         finally:
             os._exit(0)
     os.close(w)
+    data, late = _read_all(r, VICTIM_WALL)
+    os.close(r)
+    if late:                      # the victim neither finished nor reached its crash point: it hangs
+        os.kill(pid, signal.SIGKILL)
+    _, st = os.waitpid(pid, 0)
+    try:
+        info = json.loads(data.decode()) if data else {}
+    except ValueError:
+        info = {}
+    info['signaled'] = os.WIFSIGNALED(st)
+    info['hung'] = bool(late)
+    return info
+
+
+def _reap(pids, secs):
+    """Wait up to `secs` for the processes to exit; SIGKILL and return the ones that did not."""
+    deadline = time.time() + secs
+    alive = set(pids)
+    while alive and time.time() < deadline:
+        for p in list(alive):
+            try:
+                pid, st = os.waitpid(p, os.WNOHANG)
+            except ChildProcessError:
+                pid = p
+            if pid:
+                alive.discard(p)
+        if alive:
+            time.sleep(0.01)
+    for p in alive:
+        try:
+            os.kill(p, signal.SIGKILL)
+            os.waitpid(p, 0)
+        except (ProcessLookupError, ChildProcessError):
+            pass
+    return alive
+
+
+def _read_all(r, secs):
+    """Read a pipe until EOF, but for at most `secs`; returns (data, timed_out)."""
+    deadline = time.time() + secs
     data = b''
     while True:
+        left = deadline - time.time()
+        if left <= 0:
+            return data, True
+        rl, _, _ = select.select([r], [], [], left)
+        if not rl:
+            return data, True
         b = os.read(r, 65536)
         if not b:
-            break
+            return data, False
         data += b
-    os.close(r)
-    _, st = os.waitpid(pid, 0)
-    info = json.loads(data.decode()) if data else {}
-    info['signaled'] = os.WIFSIGNALED(st)
-    return info
 
 
 def probe(F, path, timeout_s):
@@ -126,10 +171,15 @@ def probe(F, path, timeout_s):
         finally:
             os._exit(0)
     os.close(w)
-    data = os.read(r, 4096)
+    data, late = _read_all(r, timeout_s + 15.0)
     os.close(r)
+    if late:                      # (an acquire with a time-out that does not come back)
+        os.kill(pid, signal.SIGKILL)
     os.waitpid(pid, 0)
-    return json.loads(data.decode()) if data else [False, -1]
+    try:
+        return json.loads(data.decode()) if data else [False, -1]
+    except ValueError:
+        return [False, -1]
 
 
 def contender(F, path, logp, cid, stop_r):
@@ -185,12 +235,15 @@ def one_case(args):
             ev.append({'n': 1, 't': 0, 'e': 'Killed', 'nth': info['killed_at'], 'fn': info['where'][0], 'line': info['where'][1]})
         else:
             ev.append({'n': 1, 't': 0, 'e': 'Completed', 'lines': info.get('lines', 0)})
+            if info.get('hung'):  # the (uncrashed) victim itself never got through its acquire/release
+                ev.append({'n': 1, 't': 0, 'e': 'Probe', 'ok': False, 'ms': int(VICTIM_WALL * 1000), 'who': 'victim'})
         ok, ms = probe(F, path, PROMPT_MS / 1000.0 + 1.0)
         ev.append({'n': 2, 't': 0, 'e': 'Probe', 'ok': ok, 'ms': ms})
         time.sleep(0.01 if ncont else 0)
         os.write(stop_w, b'x')
-        for p in cpids:
-            os.waitpid(p, 0)
+        stuck = _reap(cpids, CONTENDER_WALL)
+        if stuck:                 # a live contender is still blocked in acquire() long after the crash
+            ev.append({'n': 2, 't': 0, 'e': 'Probe', 'ok': False, 'ms': int(CONTENDER_WALL * 1000), 'who': 'contender'})
         os.close(stop_r)
         os.close(stop_w)
         n = 3
